@@ -272,6 +272,28 @@ example : get exCall "platform" = some (some (.str "arista_eos")) ∧ (get exCal
        ("failed_when_contains", some (.list []))] := by
   decide +kernel
 
+/-- which error a run ended in -/
+def errIs (r : Except Err (String × Kw)) (e : Err) : Bool :=
+  match r with
+  | .error x => x == e
+  | .ok _ => false
+
+/-- inside the quantifiers of the rejection theorems: a mix-up on each stack, a platform string that is no core
+    platform with no community module, a non-str platform; each ends in the stated exception class -/
+example :
+    transportRejected (genTables false) false (val [("transport", some (.str "asynctelnet"))] "transport") = true ∧
+    transportRejected (genTables true) true (val [("transport", some (.str "paramiko"))] "transport") = true ∧
+    (genTables false).coreMap.lookup "nope_os" = none ∧
+    errIs (factoryNew (genTables false) false ⟨true, fun _ => .missing⟩
+      [("platform", some (.str "nope_os")), ("host", some (.str "h")), ("port", some (.int 0))]) .scrapliModuleNotFound = true ∧
+    errIs (factoryNew (genTables true) true ⟨true, fun _ => .noPlatform⟩
+      [("platform", some (.str "nope_os")), ("host", some (.str "h")), ("transport", some (.str "asyncssh"))]) .scrapliException = true ∧
+    errIs (factoryNew (genTables true) true ⟨true, fun _ => .missing⟩
+      [("platform", some (.str "cisco_iosxe")), ("host", some (.str "h")), ("transport", some (.str "telnet"))]) .scrapliValueError = true ∧
+    errIs (factoryNew (genTables false) false ⟨true, fun _ => .missing⟩
+      [("platform", some (.int 5)), ("host", some (.str "h"))]) .scrapliTypeError = true := by
+  decide +kernel
+
 /-- a community platform inside the quantifier of `user_overrides_community` / `community_hook_selection` -/
 def exPlatform : Platform :=
   { driverType := .named "network",
